@@ -1112,6 +1112,11 @@ func (e *Evaluator) evalPatternRules(patternRules []*Rule) error {
 }
 
 func (e *Evaluator) GetRootJson() (string, error) {
+	if e.root == nil {
+		// no input value was processed
+		return "null", nil
+	}
+
 	val, err := e.root.Value.ToGoValue()
 	if err != nil {
 		return "", err
